@@ -6,7 +6,7 @@ from .encoders import encode_multipart
 from .wsgi import make_environ
 
 KINDS = ['ok', 'ok_json_accept', 'notfound', 'notfound_json', 'wrongverb', 'badpath', 'badchunk', 'oversized', 'badmultipart', 'badjson', 'crash', 'raised', 'gen', 'form',
-         'cookie_then_abort', 'head_ok', 'rex', 'typed', 'expires', 'longpath', 'longquery', 'status_str', 'status_int', 'signed', 'urlinfo', 'auth', 'bigform', 'chunked_ok', 'header_case', 'inject_arg', 'notmodified', 'nocontent', 'blog_direct', 'dm_info', 'resp_copy', 'form_fixed', 'sess_mutate', 'qs_reassign', 'api_404', 'api_item', 'neg_cl', 'hugepath', 'urlbuild', 'manyheaders', 'emptyform', 'emptybody', 'upload_headers']
+         'cookie_then_abort', 'head_ok', 'rex', 'typed', 'expires', 'longpath', 'longquery', 'status_str', 'status_int', 'signed', 'urlinfo', 'auth', 'bigform', 'chunked_ok', 'header_case', 'inject_arg', 'notmodified', 'nocontent', 'blog_direct', 'dm_info', 'resp_copy', 'form_fixed', 'sess_mutate', 'qs_reassign', 'api_404', 'api_item', 'neg_cl', 'hugepath', 'urlbuild', 'manyheaders', 'emptyform', 'emptybody', 'upload_headers', 'latin_gen']
 
 
 # kinds for sequential histories only (their handlers change application-wide state on purpose: hooks, a shared prepared error object)
@@ -112,6 +112,14 @@ def make_app(probe=None, config=None, private_errors=False, app=None, foreign=No
         out = 'form ' + ','.join('%s=%s' % (k, f[k]) for k in sorted(f))
         p('form:end')
         return out
+
+    @app.route('/latin', overwrite=True)
+    def latin():
+        # text streamed in a charset of the handler's choosing (the later chunks do not look at the request any more)
+        n = int(rq.query.get('n', '0'))
+        rs.content_type = 'text/plain; charset=%s' % ['latin1', 'utf-16-le', 'cp1252', 'utf-8'][n % 4]
+        words = ['caf\xe9 %d' % n, ' na\xefve', ' \xfcber', ' end']
+        return (w for w in words)
 
     @app.route('/upload', method='POST', overwrite=True)
     def upload():
@@ -397,6 +405,8 @@ def make_env(kind, n, stream_cls=Stream):
                   'extra_headers': [('X-Upload-Token', 'token-%d' % n)] if n % 3 == 0 else None}, {'name': 't', 'value': b'text'}]
         data, _ = encode_multipart(b, parts, b'', b'\r\n')
         return _e('POST', '/upload', q, stream=stream_cls(data), content_length=len(data), headers={'Content-Type': 'multipart/form-data; boundary=' + b})
+    if kind == 'latin_gen':
+        return _e('GET', '/latin', 'n=%d' % n)
     if kind == 'qs_reassign':
         return _e('GET', '/reassign', q, headers={'Cookie': 'seen=v%d' % n})
     if kind == 'api_404':
